@@ -42,7 +42,22 @@ def param_points():
     """[(label, betas-argument for the library, full name->value map for the reference)]"""
     full2 = dict(PARAMS)
     full2.update(PARTIAL)
-    return [('defaults', None, dict(PARAMS)), ('partial-dict', dict(PARTIAL), full2)]
+    return [('defaults', None, dict(PARAMS)), ('partial-dict', _typed(PARTIAL), full2)]
+
+
+def _typed(d):
+    """The same values under other legal numeric types: whole numbers as Python ints, numbers that a float32 holds exactly
+    as numpy float32 scalars (what a user gets from an array or a data frame), the others as numpy float64 scalars."""
+    import numpy as np
+    out = {}
+    for k, v in d.items():
+        if float(v) == int(v):
+            out[k] = int(v)
+        elif float(np.float32(v)) == float(v):
+            out[k] = np.float32(v)
+        else:
+            out[k] = np.float64(v)
+    return out
 
 
 def betas_spec():
